@@ -478,8 +478,16 @@ def mac_runs(res, lean, r, thorough):
 def mac_adversarial(res, lean, r, n):
     bad = []
     names = ["W/a", "W/b", "W/d", "W/d/a", "W/d/dd", "W/d/dd/a", "W/dd", "W/zz", "W/d/zz"]
-    for _ in range(n):
-        init = pipe.gen_history(r, r.randint(3, 9), no_replace=True)
+    # fixed callbacks first: an unpaired rename half whose path is occupied by ANOTHER item when the callback runs (a move
+    # out followed by the re-use of the name, or a name taken over by a directory): the item is gone, not "still there"
+    fixed = [
+        ([("create", "W/a"), ("create", "W/b")], [("W/a", "~W/b", "f", "n")]),
+        ([("create", "W/a"), ("mkdir", "W/d")], [("W/a", "999", "f", "n"), ("W/a", "=", "f", "c")]),
+        ([("mkdir", "W/d"), ("create", "W/d/a")], [("W/d", "999", "f", "n"), ("W/d", "=", "d", "c")]),
+        ([("create", "W/a")], [("W/a", "=", "f", "n")]),
+    ]
+    for k_case in range(len(fixed) + n):
+        init = fixed[k_case][0] if k_case < len(fixed) else pipe.gen_history(r, r.randint(3, 9), no_replace=True)
         rec = r.random() < 0.7
         uni = fsops.Universe()
         child = Child("mac_emitter_child.py")
@@ -489,7 +497,7 @@ def mac_adversarial(res, lean, r, n):
             inos = inode_map(uni)
             live = [p for p in inos if p.startswith("W/")]
             evs = []
-            for _k in range(r.randint(1, 5)):
+            for _k in (range(r.randint(1, 5)) if k_case >= len(fixed) else ()):
                 pth = r.choice(names + live)
                 mode = r.random()
                 other = r.choice(live) if live else "W/zz"
@@ -497,7 +505,9 @@ def mac_adversarial(res, lean, r, n):
                 kind = ("d" if os.path.isdir(uni.p(pth)) else "f") if r.random() < 0.85 else r.choice("df")
                 fl = "".join(ch for ch in "crnmt" if r.random() < 0.35)
                 evs.append((pth, spec, kind, fl))
-            if live and r.random() < 0.6:
+            if k_case < len(fixed):
+                evs = list(fixed[k_case][1])
+            elif live and r.random() < 0.6:
                 # the two halves of a rename (old name gone, new name = an existing item, same inode) with 0-2 events of
                 # other items between them: the emitter pairs them by inode wherever the partner is in the callback
                 new = r.choice(live)
@@ -507,9 +517,9 @@ def mac_adversarial(res, lean, r, n):
                         (new, "=", k, "n" + "".join(ch for ch in "mt" if r.random() < 0.3))]
                 mid = evs[:r.randint(0, 2)]
                 evs = evs[len(mid):][:2] + [pair[0]] + mid + [pair[1]]
-            if r.random() < 0.1:
+            if k_case >= len(fixed) and r.random() < 0.1:
                 evs.append(("W", "=", "d", "x"))
-            view = [p for p in live if r.random() < 0.4]
+            view = [p for p in live if r.random() < 0.4] if k_case >= len(fixed) else []
             line = (f"macemit {int(rec)} {','.join(view) or '-'} I {len(init)} " + " ".join(pipe.op_token(o) for o in init) +
                     f" R {len(evs)} " + " ".join("@".join(e) for e in evs)).replace("  ", " ")
             out = lean.run([line])[0]
